@@ -32,7 +32,8 @@ def paths and field names. Rules (each instance is keyed by function + instance 
             `Serialize::serialize`, and both take the length from that serializer's `bytes_written`; the size pass reports the
             `FdList::Number` it passed in; `NullWriteSeek::write` returns `buf.len()`
   COUNT     `SerializerCommon.bytes_written` is written only by: zero in the two `Serializer::new`, `+= n` on the inner writer's
-            return value in `<SerializerCommon as Write>::write`, and copies of another serializer's `bytes_written`
+            return value in `<SerializerCommon as Write>::write`, and copies of another serializer's `bytes_written`;
+            a sub-serializer of the D-Bus writer takes ctxt / writer / fds from the parent's fields of the same name
   FD        `add_fd`: the Number arm returns the counter value read before its `+ 1`; the Fds arm returns either the position of
             the already present fd or `fds.len()` taken before the `push`
   W-ALL     serializer code never calls the short-writing `std::io::Write::write` / `write_vectored` (only `write_all`/`write_uN`)
@@ -145,38 +146,11 @@ def t_align(ctx, f, spec, tag=""):
 BASIC_METHODS = ["bool", "i8", "i16", "i32", "i64", "u8", "u16", "u32", "u64", "f32", "f64"]
 
 
-def endian_ok(body, op, prefix):
-    """operand is `<self-path prefix>.ctxt.endian()`"""
-    o = mir.origin(body, op)
-    if o[0] != "call" or not o[1].callee.endswith("Context::endian"):
-        return False
-    p = lc.self_path(body, o[1].args[0])
-    return p == prefix + ["ctxt"]
+endian_ok = lc.endian_ok
 
 
-def value_source(body, op, want_ty):
-    """('arg', n, casts) when the operand is argument n through casts; ('call', Call) for a call result"""
-    casts = []
-    cur = op
-    for _ in range(6):
-        o = mir.origin(body, cur)
-        if o[0] == "rv" and o[1][0] == "cast":
-            casts.append((o[1][1], o[1][3]))
-            cur = o[1][2]
-            continue
-        if o[0] == "place" and not o[1][1] and 0 < o[1][0] <= body.d["argc"]:
-            return ("arg", o[1][0], casts)
-        ob = mir.origin_base(body, cur)
-        if ob[0] == "call" and ob[1].is_("branch") and len(ob) > 2 and ob[1].args:
-            # `x = f(..)?` : Continue payload of Try::branch(f(..))
-            cur = ob[1].args[0]
-            continue
-        if o[0] == "place" and not o[1][1]:
-            return ("local", o[1][0], casts)
-        if o[0] == "call":
-            return ("call", o[1], casts)
-        return (o[0], None, casts)
-    return ("?", None, casts)
+def value_source(body, op, want_ty=None):
+    return lc.value_source(body, op)
 
 
 def t_width(ctx, f, spec):
@@ -364,22 +338,9 @@ def t_len(ctx, f):
 
 
 # ============================================================================================ P-PAD / P-ABS
-def canon_align(f, spec, src):
-    if src[0] == "const":
-        return ("const", src[1])
-    if src[0] == "basic":
-        code = lc.basic_code(f, src[1]) if src[1] else None
-        row = spec["by_code"].get(code)
-        return ("const", row["align"]) if row else ("?", "basic " + str(src[1]))
-    if src[0] == "table":
-        return ("table", frozenset((tuple(sorted(a or ())), canon_align(f, spec, s)) for a, s in src[1]))
-    if src[0] == "sig":
-        return ("sig", "self" if src[1] in ("self",) or str(src[1]).startswith("local:signature") else src[1])
-    return src
-
-
-SIGSELF = ("sig", "self")
-ELEM_TABLE = ("table", frozenset([(("Array",), ("child", "Array.0")), (("Dict",), ("const", 8))]))
+canon_align = lc.canon_align
+SIGSELF = lc.SIGSELF
+ELEM_TABLE = lc.ELEM_TABLE
 
 
 def pad_calls(body):
@@ -564,8 +525,7 @@ END_TRAITS = ["SerializeSeq", "SerializeMap", "SerializeTuple", "SerializeTupleS
               "SerializeStruct", "SerializeStructVariant"]
 
 
-def returns_call(body, c):
-    return c.dest[0] == mir.RET or mir.RET in mir.derives(body, {c.dest[0]}, through_calls=False)
+returns_call = lc.returns_call
 
 
 def p_patch(ctx, f):
@@ -768,6 +728,20 @@ def count_rule(ctx, f, tag=""):
                     why = "sub-serializer starts at the parent's bytes_written" if ok else "sub-serializer's bytes_written from an unrelated value"
                 ctx.ob("COUNT", tag + K(root, "construct"), ok, why, where)
     ctx.floor("COUNT", tag + "writers of SerializerCommon.bytes_written", n, 4)
+    # a sub-serializer of the D-Bus writer continues the parent's stream: same context, writer, fd list
+    m = 0
+    for b in f.all_bodies("zvariant"):
+        if b.file != "zvariant/src/dbus/ser.rs" or b.name == "new":
+            continue
+        for bi, i, pl, rv, ln in mir.assignments(b):
+            if rv[0] == "agg" and rv[1] == "adt" and rv[2] == lc.SER_COMMON:
+                m += 1
+                bad = [fld for fld in ("ctxt", "writer", "fds") if fld in (rv[5] or []) and
+                       not lc.reads_field(b, rv[4][rv[5].index(fld)], fld)]
+                ctx.ob("COUNT", tag + K(f.bodies.get(b.root, b), "sub-serializer-shares-stream"), not bad,
+                       "sub-serializer takes ctxt/writer/fds from the parent" if not bad else
+                       "sub-serializer's %s do(es) not come from the parent's field of that name" % bad, "%s:%d" % (b.file, ln))
+    ctx.floor("COUNT", tag + "sub-serializers built in dbus/ser.rs", m, 1)
     # the counting write: inner.write(buf) result inspected by `+= n`
     inner = [c for c in mir.calls(wr) if c.c.get("fn") == "std::io::Write::write"]
     ok = len(inner) == 1
